@@ -242,6 +242,10 @@ func resolve(pool []geojson.Object, idx int, path []int) geojson.Object {
 			o = ch[p%len(ch)]
 		case *geojson.Feature:
 			o = v.Base()
+		case *geojson.Circle:
+			o = v.Polygon() // derived object
+		case *geojson.Rect:
+			o = v.Polygon() // derived object
 		default:
 			return o
 		}
